@@ -160,6 +160,16 @@ def near_tokens(major, vec):
            exact + "0000004", exact + "000000000000000000001",   # the latter is fuzzy (beyond double precision)
            "%d.%d96" % divmod(b - 1, 10) if b > 0 else "0.04", "%d.%d5" % divmod(b - 1, 10) if b > 0 else "0.05",
            "%d" % whole, "%d" % (whole + 1), "0" + exact, "+" + exact, exact + "e-0", "%d.%de1" % (0, whole) if tenth == 0 else exact]
+    # the floating-point numbers right next to the score (1, 2 and 16 units in the last place) and
+    # the score itself written with 17 significant digits
+    import math
+    x = b / 10.0
+    lo = hi = x
+    for k in range(1, 17):
+        lo, hi = math.nextafter(lo, -1.0), math.nextafter(hi, 11.0)
+        if k in (1, 2, 16):
+            out += [repr(hi)] + ([repr(lo)] if lo >= 0 else [])
+    out.append("%.17g" % x)
     return out
 
 
